@@ -60,6 +60,10 @@ CHECKS = {
    technique="exhaustive exploration of the writer's deferred-whitespace machine through the program universe: all token sequences <= 4/5, statement families x all layouts with <= 1/2 deviations (comments, blank lines, line breaks, dropped semicolons in every gap), multi-line literal and literal/comment interplay families, expression chains; x 21 option sets; re-parse, idempotence, indent-only and semicolon-only difference oracles",
    text="Every program/layout of the bounded universes is formatted by the real printer under the option sets of the tier; each output is re-parsed and compared (via its compact form and tree shape) with the source's tree, formatted again and compared byte for byte; the outputs for all ten indent units must agree after stripping leading white space, and the with/without-semicolon outputs after deleting statement-terminating semicolons located by an independent tokenizer. The pending-buffer machine misbehaves only for particular sequences of newline/indent/space/comment requests, which particular statement/comment adjacencies produce; the layout enumeration with deviations in every gap produces all such adjacencies up to the bound.",
    note="trusted: xjs parser as reader of the formatted text (its conformance is C02's subject), R-tok for locating terminators, the literal-aware line scanner in props/c06.go"),
+ "C08": dict(cat="exploration", sec="4 C08",
+   technique="exhaustive input enumeration x output configurations: all token sequences <= 4/5, statement families x layouts with <= 1/2 deviations, expression chains, literal family; every segment of every emitted map decoded by an independent Source Map v3 decoder and checked against an independent tokenizer of source and generated code",
+   text="Every accepted program of the bounded universes is compiled with a source map in compact mode and in the pretty option sets of the tier; the mappings string is decoded independently and EVERY segment is checked: a token starts exactly at its generated position and one of the same kind and lexeme exactly at its source position, segments are ordered, identifier segments carry the identifier's name and every identifier of the output is covered. A writer path that bypasses the position tracker (deferred white space, inserted separators, comments, escapes) shifts all later segments of the line or file; each such path needs a particular construct and layout, and all constructs x layouts up to the bound are enumerated.",
+   note="trusted: decoder (xmc/ref/rmap.go) and R-tok; columns accepted in UTF-16 units or bytes; string literals compared by kind"),
 }
 NA_REASON = {}
 def main():
